@@ -280,7 +280,7 @@ class CatNd(Unique):
 PROP = Property(
     id="C20",
     title="Chunk, slice and broadcast helpers are exact",
-    theorems=["C20.findChunkShape_spec", "C20.iterateChunks_partition", "C20.iterateChunks_nmax", "C20.unbroadcast_roundtrip", "C20.unique_spec", "C20.viewShape_slice_length"],
+    theorems=["C20.findChunkShape_spec", "C20.iterateChunks_partition", "C20.iterateChunks_nmax", "C20.unbroadcast_roundtrip", "C20.unique_spec", "C20.viewShape_slice_length", "C20.combineNorm_correct", "C20.combineSlices_spec", "C20.iterLoop_eq_prod", "C20.iterateChunksLoop_partition", "C20.iterateChunksLoop_nmax"],
     families=[SliceIndices(), Fcs(), Iter(), Comb(), Unbroadcast(), ViewShape(), Unique(), CatNd()],
     trusted_base=["numpy striding / as_strided, pandas.factorize(sort=True), CPython slice.indices (the latter validated by the slidx L0 family)"],
     assumptions=["numpy and pandas behave as their L0 models on the explored scope"],
